@@ -174,7 +174,13 @@ pub fn gen_case(c: &mut Choices) -> Case {
             5 => {
                 if c.chance(1, 4) {
                     // `super` of an object-literal method is the object's prototype
-                    entries.push(format!("{ks}() {{ return super.toString === undefined ? 1 : 4; }}"));
+                    if c.bool() {
+                        entries.push(format!("{ks}() {{ return super.toString === undefined ? 1 : 4; }}"));
+                    } else {
+                        // ... in the parameter list as well
+                        entries.push(format!("{ks}(v = super.toString === undefined ? 1 : 4) {{ return v; }}"));
+                        label("super-in-method-parameters", &mut labels);
+                    }
                     label("method-using-super", &mut labels);
                 } else {
                     entries.push(format!("{ks}() {{ return 4; }}"));
@@ -228,8 +234,28 @@ pub fn gen_case(c: &mut Choices) -> Case {
             }
         }
     };
+    // a props parameter without any default, and a context parameter with a default of its own:
+    // that one is not a default of the props
+    let (default_part, expected_src) = if c.chance(1, 6) {
+        label("no-props-default", &mut labels);
+        (String::new(), "{}".to_string())
+    } else {
+        (format!(" = {default_src}"), expected_src)
+    };
+    let ctx_part = match c.pick(6) {
+        0 | 1 | 2 => String::new(),
+        3 => ", ctx".to_string(),
+        4 => {
+            label("context-parameter-with-default", &mut labels);
+            ", ctx = dobj".to_string()
+        }
+        _ => {
+            label("context-parameter-with-default", &mut labels);
+            format!(", {{ emit }} = {{ emit() {{}}, {}: 7 }}", serde_json::to_string(declared[0].key).unwrap())
+        }
+    };
     let src = format!(
-        "import {{ defineComponent }} from \"vue\";\nimport {{ dflt1, sh1, fn1, dfn, k1, dobj }} from \"env\";\nexport const Comp = defineComponent((props: {{ {} }} = {default_src}) => () => null);\n",
+        "import {{ defineComponent }} from \"vue\";\nimport {{ dflt1, sh1, fn1, dfn, k1, dobj }} from \"env\";\nexport const Comp = defineComponent((props: {{ {} }}{default_part}{ctx_part}) => () => null);\n",
         members.join("; ")
     );
     let reference = format!(
